@@ -1,12 +1,16 @@
 package client
 
-// A miniature node store answering nodes.<parent>.<id> requests from a fixed
-// list of node placements; used by the client-package harnesses (the real
-// store cannot be imported here: it imports package client).
+// A miniature node store for the client-package harnesses (the real store
+// cannot be imported here: it imports package client). It answers
+// nodes.<parent>.<id> requests and accepts acknowledged p.<id> and
+// p.<id>.<parent> writes with the store's documented semantics (newest point
+// per identity wins, empty key = "0", zero time = now, a node-type point
+// creates the placement). It is the C01 post-condition used as a summary.
 
 import (
 	"strings"
 	"sync"
+	"time"
 
 	"github.com/nats-io/nats.go"
 	"github.com/simpleiot/simpleiot/data"
@@ -14,38 +18,135 @@ import (
 	"google.golang.org/protobuf/proto"
 )
 
-type vNodeSrv struct {
-	mu    sync.Mutex
-	nc    *nats.Conn
-	nodes []data.NodeEdge
-	root  string
+type vNodePts struct {
+	id  string
+	pts data.Points
 }
 
+type vNodeSrv struct {
+	mu     sync.Mutex
+	nc     *nats.Conn
+	nodes  []data.NodeEdge // placements: ID, Parent, Type, EdgePoints (Points unused)
+	points []vNodePts      // node points per node id
+	root   string
+	writes []string // subjects of accepted writes, in order
+}
+
+// vServeNodes starts a node store holding the given placements (their Points
+// become the node's points).
 func vServeNodes(nc *nats.Conn, root string, nodes []data.NodeEdge) *vNodeSrv {
-	s := &vNodeSrv{nc: nc, nodes: nodes, root: root}
+	s := &vNodeSrv{nc: nc, root: root}
+	for _, n := range nodes {
+		if len(n.Points) > 0 {
+			s.nodePoints(n.ID, true).pts = append(data.Points{}, n.Points...)
+		}
+		n.Points = nil
+		s.nodes = append(s.nodes, n)
+	}
 	vServe(nc, "nodes.*.*", s.handle)
+	vServe(nc, "p.*", s.handleNodePoints)
+	vServe(nc, "p.*.*", s.handleEdgePoints)
 	return s
 }
 
-func (s *vNodeSrv) handle(msg *nats.Msg) {
-	s.mu.Lock()
-	defer s.mu.Unlock()
-	chunks := strings.Split(msg.Subject, ".")
-	parent, id := chunks[1], chunks[2]
-	typ, includeDel := "", false
-	if len(msg.Data) > 0 {
-		pts, err := data.PbDecodePoints(msg.Data)
-		if err == nil {
-			for _, p := range pts {
-				switch p.Type {
-				case data.PointTypeTombstone:
-					includeDel = data.FloatToBool(p.Value)
-				case data.PointTypeNodeType:
-					typ = p.Text
+func (s *vNodeSrv) nodePoints(id string, create bool) *vNodePts {
+	for i := range s.points {
+		if s.points[i].id == id {
+			return &s.points[i]
+		}
+	}
+	if !create {
+		return nil
+	}
+	s.points = append(s.points, vNodePts{id: id})
+	return &s.points[len(s.points)-1]
+}
+
+func vMergePoints(have data.Points, in data.Points) data.Points {
+	for _, p := range in {
+		if p.Key == "" {
+			p.Key = "0"
+		}
+		if p.Time.IsZero() {
+			p.Time = time.Now()
+		}
+		found := false
+		for i := range have {
+			if have[i].Type == p.Type && have[i].Key == p.Key {
+				found = true
+				if !p.Time.Before(have[i].Time) {
+					have[i] = p
 				}
 			}
 		}
+		if !found {
+			have = append(have, p)
+		}
 	}
+	return have
+}
+
+func (s *vNodeSrv) handleNodePoints(msg *nats.Msg) {
+	s.mu.Lock()
+	defer s.mu.Unlock()
+	id := strings.Split(msg.Subject, ".")[1]
+	pts, err := data.PbDecodePoints(msg.Data)
+	if err != nil {
+		_ = s.nc.Publish(msg.Reply, []byte("decode error"))
+		return
+	}
+	np := s.nodePoints(id, true)
+	np.pts = vMergePoints(np.pts, pts)
+	s.writes = append(s.writes, msg.Subject)
+	if msg.Reply != "" {
+		_ = s.nc.Publish(msg.Reply, nil)
+	}
+}
+
+func (s *vNodeSrv) handleEdgePoints(msg *nats.Msg) {
+	s.mu.Lock()
+	defer s.mu.Unlock()
+	ch := strings.Split(msg.Subject, ".")
+	id, parent := ch[1], ch[2]
+	pts, err := data.PbDecodePoints(msg.Data)
+	if err != nil {
+		_ = s.nc.Publish(msg.Reply, []byte("decode error"))
+		return
+	}
+	typ := ""
+	var store data.Points
+	for _, p := range pts {
+		if p.Type == data.PointTypeNodeType {
+			typ = p.Text
+			continue
+		}
+		store = append(store, p)
+	}
+	idx := -1
+	for i := range s.nodes {
+		if s.nodes[i].ID == id && s.nodes[i].Parent == parent {
+			idx = i
+		}
+	}
+	if idx < 0 {
+		if typ == "" {
+			if msg.Reply != "" {
+				_ = s.nc.Publish(msg.Reply, []byte("Node type must be sent with new edges"))
+			}
+			return
+		}
+		s.nodes = append(s.nodes, data.NodeEdge{ID: id, Parent: parent, Type: typ})
+		idx = len(s.nodes) - 1
+	}
+	s.nodes[idx].EdgePoints = vMergePoints(s.nodes[idx].EdgePoints, store)
+	s.writes = append(s.writes, msg.Subject)
+	if msg.Reply != "" {
+		_ = s.nc.Publish(msg.Reply, nil)
+	}
+}
+
+// query returns the placements matching a nodes.<parent>.<id> request.
+func (s *vNodeSrv) query(parent, id, typ string, includeDel bool) data.Nodes {
 	var out data.Nodes
 	for _, n := range s.nodes {
 		switch {
@@ -72,8 +173,35 @@ func (s *vNodeSrv) handle(msg *nats.Msg) {
 		if del, _ := n.IsTombstone(); del && !includeDel {
 			continue
 		}
+		if np := s.nodePoints(n.ID, false); np != nil {
+			n.Points = append(data.Points{}, np.pts...)
+		}
+		n.EdgePoints = append(data.Points{}, n.EdgePoints...)
 		out = append(out, n)
 	}
+	return out
+}
+
+func (s *vNodeSrv) handle(msg *nats.Msg) {
+	s.mu.Lock()
+	defer s.mu.Unlock()
+	chunks := strings.Split(msg.Subject, ".")
+	parent, id := chunks[1], chunks[2]
+	typ, includeDel := "", false
+	if len(msg.Data) > 0 {
+		pts, err := data.PbDecodePoints(msg.Data)
+		if err == nil {
+			for _, p := range pts {
+				switch p.Type {
+				case data.PointTypeTombstone:
+					includeDel = data.FloatToBool(p.Value)
+				case data.PointTypeNodeType:
+					typ = p.Text
+				}
+			}
+		}
+	}
+	out := s.query(parent, id, typ, includeDel)
 	resp := &pb.NodesRequest{}
 	resp.Nodes, _ = out.ToPbNodes()
 	b, _ := proto.Marshal(resp)
